@@ -24,6 +24,8 @@ def check(case):
     res = Result()
     o = drive.run(case, snap=False)
     if common.failed_run(res, case, o, clause='construct'):
+        if o.exc is not None and o.stage == 'attributes':
+            res.fail('attributes', 'attributes|%s' % common.base_sig(case, o), 'Election.elected/.defeated/.withdrawn after the count: %r' % (o.exc,))
         if o.exc is not None and o.stage == 'count':
             kind = 'progress-bound' if isinstance(o.exc, ProgressBound) else 'count-raises'
             res.fail(kind, '%s|%s|%s' % (kind, common.base_sig(case, o), exc_sig(o.exc)), repr(o.exc))
